@@ -173,3 +173,7 @@ package mvp3
 //@   loop 0: invariant m.cycle >= old(m.cycle) && m.ctx != nil && m.mmu != nil && m.mmu.l1i != nil && m.ctx.Registers != nil && 0 <= pc
 //@   loop 0: step m.cycle >= prev(m.cycle) + latency.L1Access + 1 + (risc.memReadCount(r) != 0 ? latency.L1Access : 0) + ((ins == risc.Lb || ins == risc.Lh || ins == risc.Lw) ? 50 : 1) + (exe.RegisterChange ? latency.RegisterAccess : (exe.MemoryChange ? latency.L1Access : 0))
 //@   loop 0: step m.cycle <= prev(m.cycle) + latency.MemoryAccess + 1 + (risc.memReadCount(r) != 0 ? latency.L1Access + latency.MemoryAccess : 0) + ((ins == risc.Lb || ins == risc.Lh || ins == risc.Lw) ? 50 : 1) + (exe.RegisterChange ? latency.RegisterAccess : (exe.MemoryChange ? latency.MemoryAccess : 0))
+//@   -- the loop body applies exactly the Execution returned by the instruction (sequential reference semantics)
+//@   loop 0: step exe.PcChange ? pc == exe.NextPc : pc == prev(pc) + 4
+//@   loop 0: step exe.RegisterChange ==> exe.Register in m.ctx.Registers && m.ctx.Registers[exe.Register] == exe.RegisterValue
+//@   loop 0: step forall r risc.RegisterType :: !(exe.RegisterChange && r == exe.Register) ==> (r in m.ctx.Registers) == prev(r in m.ctx.Registers) && m.ctx.Registers[r] == prev(m.ctx.Registers[r])
